@@ -223,5 +223,14 @@ CHECKS["C32"] = dict(
     design_ref="DESIGN.md §5 C32", note="Trusted: TLC integer arithmetic, answer-name rendering.",
     technique="TLA+ definition of the documented distribution evaluated by TLC, compared with the real library's answers")
 
+CHECKS["C19"] = dict(
+    category="exploration",
+    text="Programs with ground probabilistic facts (duplicates allowed), a ground AD, deterministic facts and non-recursive "
+         "rules, and a wrapper built by findall/3 or all/3: JudgeFindall.tla enumerates every possible world, runs the world's "
+         "program through the SLD interpreter (SLD.tla) and sums exact world weights per ordered result list; the real "
+         "system's list probabilities are compared with it (strictly; deviations that keep the distribution over solution "
+         "multisets / sets are classified as the known tabling deviations).",
+    design_ref="DESIGN.md §5 C19", note=_TERM_NOTE, technique="TLA+ per-world SLD semantics with exact weights evaluated by TLC on recorded answers")
+
 NOT_YET = "check not built yet in this round (planned in DESIGN.md §5); not claimed"
 NOT_APPLICABLE = {}
